@@ -81,6 +81,16 @@ macro_rules! run_server {
         match werr {
             Some(w) => w,
             None => finish_seq!($msgs, cipher, plain, hdr_positions, |cur: &mut Cursor<&[u8]>, i: usize, k: char, l: usize| -> Result<(usize, bool), String> {
+                if $api == "expectother" && i % 2 == 1 {
+                    // asked for as ANOTHER type: opcode error, exactly the announced bytes consumed, cipher still in step
+                    let r = if k == 'w' { e::expect_server_message_encryption::<e::SMSG_PONG, _>(&mut *cur, $dec).map(|_| ()) }
+                            else { e::expect_server_message_encryption::<e::SMSG_WARDEN_DATA, _>(&mut *cur, $dec).map(|_| ()) };
+                    return match r {
+                        Err(wow_world_messages::errors::ExpectedOpcodeError::Opcode { .. }) => Ok((if k == 'w' { l } else { 4 }, true)),
+                        Err(x) => Err(errk!(x)),
+                        Ok(()) => Err("err unexpected-ok".to_string()),
+                    };
+                }
                 if $api == "enum" {
                     match e::opcodes::ServerOpcodeMessage::read_encrypted(&mut *cur, $dec) {
                         Ok(e::opcodes::ServerOpcodeMessage::SMSG_WARDEN_DATA(m)) => Ok((m.encrypted_data.len(), k == 'w' && m.encrypted_data == body(l, i as u8))),
@@ -121,6 +131,13 @@ macro_rules! run_client {
         match werr {
             Some(w) => w,
             None => finish_seq!($msgs, cipher, plain, hdr_positions, |cur: &mut Cursor<&[u8]>, i: usize, _k: char, l: usize| -> Result<(usize, bool), String> {
+                if $api == "expectother" && i % 2 == 1 {
+                    return match e::expect_client_message_encryption::<e::CMSG_PING, _>(&mut *cur, $dec).map(|_| ()) {
+                        Err(wow_world_messages::errors::ExpectedOpcodeError::Opcode { .. }) => Ok((l, true)),
+                        Err(x) => Err(errk!(x)),
+                        Ok(()) => Err("err unexpected-ok".to_string()),
+                    };
+                }
                 if $api == "enum" {
                     match e::opcodes::ClientOpcodeMessage::read_encrypted(&mut *cur, $dec) {
                         Ok(e::opcodes::ClientOpcodeMessage::CMSG_WARDEN_DATA(m)) => Ok((m.encrypted_data.len(), m.encrypted_data == body(l, i as u8))),
